@@ -39,6 +39,10 @@ loop:
 		case opnop:
 			// nop
 		case oppush:
+			if verifFreshConst() {
+				env.push(verifFresh(code.v))
+				break
+			}
 			env.push(code.v)
 		case oppop:
 			env.pop()
@@ -48,6 +52,10 @@ loop:
 			env.push(v)
 		case opconst:
 			env.pop()
+			if verifFreshConst() {
+				env.push(verifFresh(code.v))
+				break
+			}
 			env.push(code.v)
 		case opload:
 			env.push(env.values[env.index(code.v.([2]int))])
